@@ -205,6 +205,12 @@ func signerIntervalRule(P *Program, R *Report) {
 			R.bad(rule, kCLSign+":e-interval", "e is drawn by RandomPrimeInRange", "no call found", P.Pos(fn.Pos()))
 		}
 	}
+	randomPrimeInRangeRule(P, R, rule)
+}
+
+// randomPrimeInRangeRule: RandomPrimeInRange returns 2^start + offset with offset decoded from ceil(length/8)
+// random bytes masked to `length` bits, only after ProbablyPrime(k >= 20) (shared by C05.c and C19.g).
+func randomPrimeInRangeRule(P *Program, R *Report, rule string) {
 	g := mustFunc(P, R, rule, "common.RandomPrimeInRange")
 	if g == nil {
 		return
